@@ -1,5 +1,5 @@
 //! C08 — source text is tokenised exactly per the documented lexical rules.
-//! Explores all strings of at most l symbols over the 28-symbol alphabet; oracle: R-lex.
+//! Explores all strings of at most l symbols over the 30-symbol alphabet; oracle: R-lex.
 
 use crate::common::*;
 use crate::gramsweep::Acc;
@@ -199,7 +199,7 @@ pub fn run(ctx: &Ctx) -> Outcome {
     let n = acc.get("strings");
     out.cov("evaluations", json!(n));
     out.cov("distinct_nontrivial", json!(n.saturating_sub(1)));
-    out.cov("rule", json!(format!("all strings of at most {l} symbols over the 28-symbol alphabet {:?} (one representative per lexer character class and UTF-8 length, two reserved words); every Unicode scalar value in 10 contexts (between tokens, in identifiers, after $ : # /, in comments and attributes); plus the repository's grammar files and hand-picked cases; all strings are distinct; non-trivial = non-empty", ALPHABET)));
+    out.cov("rule", json!(format!("all strings of at most {l} symbols over the 30-symbol alphabet {:?} (one representative per lexer character class and UTF-8 length, two reserved words); every Unicode scalar value in 10 contexts (between tokens, in identifiers, after $ : # /, in comments and attributes); plus the repository's grammar files and hand-picked cases; all strings are distinct; non-trivial = non-empty", ALPHABET)));
     out.cov("exhaustive", json!(!was_capped));
     out.cov("scopes", json!([{"name": format!("strings<= {l} symbols"), "size": n, "completed": !was_capped, "exhaustive": !was_capped, "capped_by": if was_capped { json!("wall-clock budget") } else { Value::Null }}]));
     out.cov("histogram", json!(acc.counters));
